@@ -10,6 +10,10 @@ TRACE  engine `json` (harness/src/eng_json.rs) -> mc/Trace_JsonG.tla
        rand  seeded random diagrams (<= 7 spiders, <= 4 boundaries, scattered names, H-boxes) and `big`
              diagrams (9..16 spiders, isomorphism by refinement, no denotation)
        each through encode_graph/decode_graph (vec, hash), serde of hash_graph::Graph, write_graph/read_graph
+       api   (option --api of the `rand` trace; audit #24) JsonPhase::to_phase on phase texts of other writers rendered from
+             logged shapes, JsonPhase::from_phase with caller-chosen PhaseOptions, the four Scalar4 <-> JsonScalar conversion
+             impls, hand-written scalar documents (phasenodes, is_zero, is_unknown, JsonScalar::unknown()), and whole
+             documents in other writers' shapes (hadamard-typed edges, boolean io flags, parallel edges, chained virtual nodes)
 At most 6 TLC workers / 6 shards at a time."""
 from vlib import *
 
@@ -37,7 +41,8 @@ META = dict(
          "fields. Coordinates are multiples of 0.1 compared at 0.1 (abs_ext) resp. 0.001 (document); the last-bit accuracy of serde_json's "
          "float parser and JSON byte syntax are not covered. Boolean variables on spiders, W nodes / w_io edges and Z-box labels are outside "
          "the property's quantifier; H-boxes are checked structurally only (no denotation). Documents of other writers (parallel edges, "
-         "hadamard-typed edges, virtual nodes joined to each other, boolean input flags) are transcribed but not explored.")
+         "hadamard-typed edges, virtual nodes joined to each other, boolean input flags) and their phase / scalar spellings are sampled by the "
+         "harness's own writer (option --api) and judged only as far as: what the text denotes, or an error.")
 
 ENGINE = {"name": "json", "path": "spec/JsonG.tla mc/MC_JsonG.tla mc/Trace_JsonG.tla harness/src/eng_json.rs",
           "serves_properties": ["C13"],
@@ -50,7 +55,10 @@ def plan(prop, tier, seed, t0):
     M = dict(module="MC_JsonG.tla", workers=6)
     A = ("B1", "B2", "B3")          # vacuity (every build action taken) is checked on the small config only: -coverage slows TLC down
     mcs = [dict(name="struct", cfg="MC_JsonG_q.cfg" if q else "MC_JsonG_t2.cfg", timeout=900 if q else 3000, **M),
-           dict(name="scalars", cfg="MC_JsonG_sc.cfg", timeout=900, actions=A, **M)]
+           dict(name="scalars", cfg="MC_JsonG_sc.cfg", timeout=900, actions=A, **M),
+           # documents in other writers' shapes on the transcription: hadamard-typed edges decode to g, one more (parallel) edge
+           # decodes to what the multigraph denotes (audit #24)
+           dict(name="foreign", cfg="MC_JsonG_f.cfg" if q else "MC_JsonG_ft.cfg", timeout=900 if q else 3000, **M)]
     if not q:
         mcs += [dict(name="struct3", cfg="MC_JsonG_t.cfg", timeout=3000, **M),
                 dict(name="hbox", cfg="MC_JsonG_h.cfg", timeout=3000, **M)]
@@ -59,7 +67,7 @@ def plan(prop, tier, seed, t0):
         dict(name="fam", engine="json", args=["--named", "--fam", "k=2,tys=ZX,phs=01247,ets=NH,nb=2,bb=1",
                                               "--fam", "k=3,tys=ZX,phs=014,ets=NH,nb=1,bb=1", "--stride", 60 if q else 6], **T),
         dict(name="rand", engine="json", args=["--random", 1500 if q else 20000, "--rand", "maxsp=7,maxb=4",
-                                               "--big", 150 if q else 1500], **T),
+                                               "--big", 150 if q else 1500, "--api", 300 if q else 3000], **T),
     ]
     assume = COMMON_ASSUME + [
         "the harness's projection of the emitted JSON text (own phase-string and scalar-field reader, harness/src/eng_json.rs) is what "
@@ -72,15 +80,24 @@ def plan(prop, tier, seed, t0):
     def extra(stats, groups):
         return {"uncovered": ["last-bit float accuracy of coordinates / float factor through serde_json",
                               "boolean variables on spiders (not encoded at all by the format code), W nodes, Z-box labels",
-                              "documents written by other tools (parallel edges, hadamard-typed edges, boolean input flags): transcribed in "
-                              "spec/JsonG.tla (DecodeWith) but not explored"],
-                "scalar_exact_means": "equal ring element and approx flag not newly set (Scalar4 ==)"}
+                              "documents written by other tools are sampled (harness-written in their shapes), not exhausted; real pyzx output "
+                              "files are not part of the corpus"],
+                "scalar_exact_means": "equal ring element and approx flag not newly set (Scalar4 ==)",
+                "foreign_input": {"judged_as": "a text / scalar document / diagram document of another writer that denotes a value decodes to "
+                                               "exactly that value or to an error (ForeignPhase, PhaseOptions, ForeignScalar, IsoPost/DenPost of "
+                                               "`foreign` events); never more than that",
+                                  "recorded_only": "texts that denote no rational ('1/0', 'pi/0', '1e400' panic in to_phase; '-' reads as -1), "
+                                                   "is_unknown scalars (decoded as 1), boolean io flags on more than one wire (all collapse to "
+                                                   "index 0), a scalar field next to parallel edges (replaces the fusion scalar, as in pyzx)"}}
 
     return run_plan(prop, tier, seed, t0, mcs, traces, "model_checking", assume,
                     "MC: every diagram of the family (<=2 spiders Z/X x 4 (thorough: 5) phases x both edge types x <=2 boundaries on N/H wires x optional "
                     "boundary-boundary wire; thorough: 3 spiders, and H-boxes with all 8 phases) x coordinate layouts, and a small family x 10 "
                     "scalars x 3 layouts: NoPanicRT, DocOK, RoundTripIso, RoundTripDen, ScalarRT, DecodeOrder, IsoAgree, IsoSharp on the "
-                    "specification; TRACE: one execution = one decorated diagram pushed through 4 round trips (encode/decode vec, hash, serde "
+                    "specification; ForeignTypedH / ForeignParallel (the transcribed decoder on hadamard-typed and parallel edges); TRACE: one execution = one decorated diagram pushed through 4 round trips (encode/decode vec, hash, serde "
                     "hash, file); every round trip decided in TLC by NoError, IsoPost, DenPost, DocWF, DocMeansPre, ScalarExact / ScalarClose; "
-                    "non-trivial = round trips of a non-empty diagram or a scalar other than 1",
+                    "non-trivial = round trips of a non-empty diagram or a scalar other than 1; API events (--api): phase texts of other "
+                    "writers by shape (ForeignPhase), from_phase under caller-chosen PhaseOptions (PhaseOptions), the four scalar conversion impls "
+                    "(ScalarExact / ScalarClose), hand-written scalar documents (ForeignScalar) and whole foreign-shaped documents (IsoPost / "
+                    "DenPost incl. parallel edges against Den of the multigraph)",
                     extra_cov_fn=extra)
